@@ -59,7 +59,7 @@ def enumerate_topologies(seed):
 
 
 def container_value(kind, make):
-    if kind in ("optional", "pipe"):
+    if kind in ("optional", "pipe", "nonefirst", "unionnone"):
         return make()
     if kind == "list":
         return [make(), make()]
